@@ -375,3 +375,129 @@ def _deref_ty(ty):
     if m:
         return m.group(1)
     return t
+
+
+# ---------------------------------------------------------------------------- flow-sensitive slice
+class ReachingDefs:
+    """Flow-sensitive backward slicing over one body (on demand, no global fixpoint).
+
+    A *definition* is a statement `_n = ..` / `(_n.f: T) = ..` (partial) or a call terminator whose
+    destination's base local is `_n`.  Stores through a pointer `(*_n).. = ..` are treated as
+    partial definitions of every local whose address `_n` may hold is NOT attempted: they count as
+    partial definitions of `_n` itself (conservative for the slices built here, which follow
+    by-value plan handles).  `reaching(local, bid, idx)` returns the definitions of `local` that
+    reach the program point just before statement `idx` of block `bid` (idx == len(stmts) is the
+    terminator).  `slice_back` closes that over the operands of the definitions found."""
+
+    def __init__(self, body, cfg=None):
+        from .cfg import CFG
+        body.parse()
+        self.body = body
+        self.cfg = cfg or CFG(body)
+        self.block_defs = {}        # bid -> [(idx, local, partial, kind, obj)] in order
+        for bid, blk in body.blocks.items():
+            lst = []
+            for i, s in enumerate(blk.stmts):
+                if s.kind != 'assign':
+                    continue
+                bl = base_local(s.lhs)
+                if bl is None:
+                    continue
+                partial = s.lhs.strip() != '_%d' % bl
+                lst.append((i, bl, partial, 'stmt', s))
+            t = blk.term
+            if t is not None and t.kind == 'call':
+                bl = base_local(t.dest)
+                if bl is not None:
+                    partial = (t.dest or '').strip() != '_%d' % bl
+                    lst.append((len(blk.stmts), bl, partial, 'term', t))
+            self.block_defs[bid] = lst
+        self._entry_memo = {}
+
+    def _scan_block(self, local, bid, upto):
+        """Definitions of local in block bid at positions < upto, latest first.
+        Returns (defs, killed) - killed: a full definition was met."""
+        out = []
+        for (i, l, partial, kind, obj) in reversed(self.block_defs[bid]):
+            if i >= upto or l != local:
+                continue
+            out.append((bid, i, kind, obj))
+            if not partial:
+                return out, True
+        return out, False
+
+    def reaching(self, local, bid, idx):
+        found, killed = self._scan_block(local, bid, idx)
+        if killed:
+            return found
+        seen = set()
+        work = list(self.cfg.pred.get(bid, []))
+        while work:
+            b = work.pop()
+            if b in seen:
+                continue
+            seen.add(b)
+            blk = self.body.blocks[b]
+            # a call's destination is defined on the edge to its return target only
+            d, k = self._scan_block(local, b, len(blk.stmts) + 1)
+            found += d
+            if not k:
+                work.extend(self.cfg.pred.get(b, []))
+        # de-duplicate
+        uniq, ids_ = [], set()
+        for d in found:
+            key = (d[0], d[1])
+            if key not in ids_:
+                ids_.add(key)
+                uniq.append(d)
+        return uniq
+
+    @staticmethod
+    def def_inputs(d):
+        bid, idx, kind, obj = d
+        if kind == 'stmt':
+            ins = locals_in(obj.rhs)
+            # a partial definition keeps the rest of the old value
+            bl = base_local(obj.lhs)
+            if obj.lhs.strip() != '_%d' % bl:
+                ins = ins + [bl]
+            return ins
+        out = []
+        for a in obj.args:
+            out += locals_in(a)
+        if obj.func and obj.func.startswith(('move _', 'copy _')):
+            out += locals_in(obj.func)
+        return out
+
+    def slice_back(self, local, bid, idx, stop=None, max_nodes=20000, follow=None):
+        """Definitions the value of `local` at (bid, idx) may derive from.  stop(d) -> True keeps
+        the definition in the result but does not follow its inputs; follow(local) -> False does
+        not trace that operand (used to restrict a slice to locals of a carrier type).
+        Returns {'defs': [(bid, idx, kind, obj)], 'args': set of parameter locals reached}."""
+        nargs = {n for (n, _t) in self.body.args}
+        seen_q = set()
+        seen_d = set()
+        out = []
+        args = set()
+        work = [(local, bid, idx)]
+        while work and len(seen_q) < max_nodes:
+            q = work.pop()
+            if q in seen_q:
+                continue
+            seen_q.add(q)
+            l, b, i = q
+            rd = self.reaching(l, b, i)
+            if l in nargs:
+                args.add(l)
+            for d in rd:
+                key = (d[0], d[1])
+                if key in seen_d:
+                    continue
+                seen_d.add(key)
+                out.append(d)
+                if stop and stop(d):
+                    continue
+                for u in self.def_inputs(d):
+                    if follow is None or follow(u):
+                        work.append((u, d[0], d[1]))
+        return {'defs': out, 'args': args}
